@@ -357,19 +357,19 @@ func init() {
 	props["C10"] = &PropDef{
 		Funcs: []string{
 			`(*client.Client).GetCachedTicket`, `(*client.Cache).getEntry`, `(*client.Cache).addEntry`, `(*client.session).update`,
-			`(*client.Client).TGSExchange`, `(*client.Client).ASExchange`, `(*client.Client).TGSREQGenerateAndExchange`, `(*client.Client).ensureValidSession`,
+			`(*client.Client).TGSExchange`, `(*client.Client).ASExchange`, `(*client.Client).TGSREQGenerateAndExchange`,
 		},
 		Kinds:           kinds(append([]string{"lock"}, contractKinds...)...),
 		NeedObligations: true,
 		QuickTimeout:    20,
 		Assumptions: []string{
 			"time.Now readings are arbitrary non-decreasing instants; now#1 / now#2 are the two readings GetCachedTicket compares with the entry's start and end time",
-			"ghost records: the start / end time of the cache entry returned by Cache.getEntry, whether a ticket renewal or a session refresh happened",
+			"ghost records: the start / end time of the cache entry returned by Cache.getEntry and a count of ticket renewals",
 			"exchanges with the KDC are the contracts of C09 (replies arbitrary, accepted only if they answer the request)",
 		},
 		NotDecided: []string{
 			"'against any conformant KDC login obtains a TGT and the right service ticket', well-formedness of the requests built by NewASReq / NewTGSReq (options, etypes, lifetimes, pre-authentication) and the auto-renewal goroutine over time: protocol-level histories that per-function contracts do not express; the reply-matching part is C09",
-			"ensureValidSession's 1/6-lifetime rule is not stated as a postcondition (the session it reads is not nameable in the contract language)",
+			"ensureValidSession's 1/6-lifetime rule is not under contract (the session it reads is not nameable in the contract language)",
 		},
 		LevelNote: "Proved: a ticket is served from the cache without renewal only if the first clock reading lies after the entry's start time and the second before its end time (the entry being the one read under the cache lock); a renewed TGT overwrites every field of the session with the values of the KDC reply (authtime, endtime, renew-till, ticket, session key, key expiration); AS and TGS referral chains are bounded by the variant 6 - referral, including through TGSREQGenerateAndExchange. The protocol-level clauses are listed as not decided.",
 	}
@@ -390,6 +390,25 @@ func init() {
 			"the composition of the readers into parseHeader / parsePrincipal / parseCredential / Unmarshal for whole files of format versions 1 to 4 (a file-level well-formedness predicate and the version-dependent layout are not under contract), and client.NewFromCCache",
 		},
 		LevelNote: "Proved for every buffer, cursor and byte order: the ccache readers decode exactly the octets at the cursor - 8/16/32-bit integers in the file's byte order, counted octet strings (32-bit length then data, copied into a new slice), addresses and authorization-data entries (16-bit type, counted data), timestamps as sign-extended 32-bit seconds - and advance the cursor by exactly what they consumed; Contains / GetEntry decide by equality of all principal-name components and GetEntry returns the first such credential; GetEntries returns a new list whose elements are credentials of the cache, and none of the lookups writes to the cache.",
+	}
+	props["C16"] = &PropDef{
+		Funcs: []string{
+			`config.appendUntilFinal`, `config.randServOrder`, `(*config.Config).GetKDCs`, `(*config.Config).GetKpasswdServers`,
+			`config.parseDuration`, `config.parseBoolean`, `config.parseETypes`, `(*config.Config).ResolveRealm`,
+			`(*config.Realm).parseLines`, `config.parseRealms`, `(*config.LibDefaults).parseLines`, `(*config.DomainRealm).parseLines`, `(*config.DomainRealm).addMapping`,
+		},
+		Kinds:           kinds(append([]string{"table"}, contractKinds...)...),
+		NeedObligations: true,
+		QuickTimeout:    20,
+		Extra:           func(cc *checkCtx) []*Obligation { return cc.finalFlagCheck() },
+		Assumptions: []string{
+			"strings / strconv / regexp functions are trusted stdlib contracts (lengths and containment only): the textual semantics of krb5.conf lines are not modelled",
+			"math/rand.Intn returns 0 <= r < n",
+		},
+		NotDecided: []string{
+			"that a krb5.conf using the documented MIT syntax loads with the documented values (booleans, durations, enctype lists, port defaults, domain mappings), rejection of structurally invalid files, and most-specific matching in ResolveRealm: these are statements about text, which the string model (uninterpreted strings with lengths) cannot express; the parsers are covered for memory safety and termination only (shared with C04)",
+		},
+		LevelNote: "Proved: appendUntilFinal appends nothing once the relation's final flag is set, otherwise appends exactly the value (without a trailing '*', which sets the flag) and keeps the earlier values; decided structurally over the current source: every multi-valued realm relation (kdc, master_kdc, admin_server, kpasswd_server) is parsed with a final-value flag of its own; KDC / kpasswd look-up returns every configured server under keys 1..n (set level) without writing to the configuration; the parsing functions are memory-safe and terminate on every input.",
 	}
 	props["C17"] = &PropDef{
 		Funcs: []string{
@@ -803,6 +822,64 @@ func variadicElems(v ssa.Value) []ssa.Value {
 	}
 	if len(out) == 0 {
 		return []ssa.Value{v}
+	}
+	return out
+}
+
+// finalFlagCheck (C16): krb5.conf's final-value marker ('*') ends the list of ONE relation (kdc, admin_server, ...).
+// Structural decision over go/ssa: every call of appendUntilFinal passes the address of a struct field as the list
+// and a local flag; distinct list fields must use distinct flags and one field always the same flag.
+func (cc *checkCtx) finalFlagCheck() []*Obligation {
+	var out []*Obligation
+	type use struct {
+		field string
+		flag  ssa.Value
+		pos   string
+	}
+	var uses []use
+	for _, f := range cc.P.Funcs {
+		if f == nil || !inRepo(f) {
+			continue
+		}
+		for _, b := range f.Blocks {
+			for _, in := range b.Instrs {
+				ci, ok := in.(ssa.CallInstruction)
+				if !ok {
+					continue
+				}
+				c := ci.Common()
+				callee := c.StaticCallee()
+				if callee == nil || fnName(callee) != "config.appendUntilFinal" || len(c.Args) != 3 {
+					continue
+				}
+				fa, ok := c.Args[0].(*ssa.FieldAddr)
+				if !ok {
+					out = append(out, &Obligation{Fn: fnName(f), Name: fnName(f) + "#table:final-flag@" + cc.P.posString(in.Pos()), Kind: "table", Status: "failed", Solver: "table",
+						Desc: "the list passed to appendUntilFinal is a struct field", Raw: "not a field address"})
+					continue
+				}
+				st := types.Unalias(deref(fa.X.Type())).Underlying().(*types.Struct)
+				uses = append(uses, use{field: st.Field(fa.Field).Name(), flag: c.Args[2], pos: cc.P.posString(in.Pos())})
+			}
+		}
+	}
+	sort.Slice(uses, func(i, j int) bool { return uses[i].pos < uses[j].pos })
+	for i, u := range uses {
+		o := &Obligation{Fn: "config.appendUntilFinal", Name: "config.appendUntilFinal#table:final-flag:" + u.field, Kind: "table", Status: "discharged", Solver: "table",
+			Desc: "relation " + u.field + " has a final-value flag of its own (call at " + u.pos + ")"}
+		for j, v := range uses {
+			if i == j {
+				continue
+			}
+			if (u.field == v.field) != (u.flag == v.flag) {
+				o.Status, o.Raw = "failed", fmt.Sprintf("%s at %s and %s at %s: same relation must mean same flag, different relations different flags", u.field, u.pos, v.field, v.pos)
+			}
+		}
+		out = append(out, o)
+	}
+	if len(uses) == 0 {
+		out = append(out, &Obligation{Fn: "config.appendUntilFinal", Name: "config.appendUntilFinal#table:final-flag", Kind: "table", Status: "failed", Solver: "table",
+			Desc: "appendUntilFinal call sites found", Raw: "no call sites: the structural check is vacuous"})
 	}
 	return out
 }
